@@ -37,6 +37,9 @@ type c10Prog struct {
 	Versioned bool      `json:"versioned"` // a versioning directory is configured (lock buckets are then versioned)
 	Objs      []c10Prot `json:"objs"`
 	Ops       []c10Op   `json:"ops"`
+	// Reused: the bucket name had an earlier life in the same gateway process as a bucket WITHOUT object
+	// lock (created, written to, emptied, deleted) before the lock bucket is created
+	Reused bool `json:"reused,omitempty"`
 }
 
 type c10 struct{ baseCheck }
@@ -62,7 +65,7 @@ func (c10) Gen(seed uint64, run int, tier string) *core.Case {
 	r := sim.Rng(seed, "gen")
 	cfg := swarmCfg(r, 3)
 	cfg.Versioning = run%4 != 0
-	p := c10Prog{Versioned: cfg.Versioning}
+	p := c10Prog{Versioned: cfg.Versioning, Reused: run%3 == 1}
 	no := 1 + r.IntN(3)
 	for i := 0; i < no; i++ {
 		p.Objs = append(p.Objs, c10Prot{Kind: []string{"hold", "compliance", "governance", "default-compliance", "default-governance", "governance", "compliance"}[r.IntN(7)], Hours: []int{1, 24, 24 * 30, 24 * 400}[r.IntN(4)]})
@@ -203,6 +206,14 @@ func (c10) Exec(c *core.Case) (out *core.Outcome) {
 	mustOK(root.Do(s3c.AdminCreateUser(user.Access, user.Secret, "user", 0, 0)), "create user")
 	mustOK(root.Do(s3c.AdminCreateUser(userBp.Access, userBp.Secret, "user", 0, 0)), "create bypass user")
 	mustOK(root.Do(s3c.AdminCreateUser(admin.Access, admin.Secret, "admin", 0, 0)), "create admin")
+	if p.Reused {
+		mustOK(root.Do(s3c.CreateBucket(bkt)), "earlier life: create without lock")
+		mustOK(root.Do(s3c.PutObject(bkt, "old", []byte("old data"))), "earlier life: put")
+		mustOK(root.Do(s3c.PutObject(bkt, "old", []byte("old data 2"))), "earlier life: overwrite")
+		mustOK(root.Do(s3c.DeleteObject(bkt, "old")), "earlier life: delete")
+		mustOK(root.Do(s3c.DeleteBucket(bkt)), "earlier life: delete bucket")
+		o.Probe("bucket_name_reused")
+	}
 	cb := root.Do(s3c.CreateBucket(bkt, KV{K: "X-Amz-Bucket-Object-Lock-Enabled", V: "true"}))
 	if !cb.Resp.OK() {
 		if !p.Versioned {
